@@ -12,7 +12,8 @@ OPT = ["MinimiseProgramTransformer", "RemoveRelationCopiesTransformer", "RemoveE
        "PartitionBodyLiteralsTransformer", "SimplifyConstantBinaryConstraintsTransformer", "RemoveRedundantSumsTransformer"]
 PLAN_DIAG = ["Invalid execution order", "Ignored execution plan", "execution plan for version"]
 RULE = ("dlgen programs with 1-4 body atoms per rule (negation, constraints, functors, records, aggregates, recursion incl. mutual "
-        "and non-linear); variant = (a) `.plan v:(perm)` entries on recursive clauses: for a random non-empty subset of the versions "
+        "and non-linear; in 40% of the plan cases the recursion-pattern generator: non-linear closure, same generation, mutual recursion "
+        "over random graphs); variant = (a) `.plan v:(perm)` entries on recursive clauses: for a random non-empty subset of the versions "
         "v in 0..#atoms-in-own-SCC-1 a random permutation of ALL positive body atoms (exactly what ExecutionPlanChecker accepts; "
         "optional AST passes are disabled in both runs so the atom count is the source's; plans souffle still rejects are discarded "
         "and counted), (b) each -PRamSIPS:<metric> of the 9 metrics, (c) profile-guided auto-scheduling: a profiling run with "
@@ -27,8 +28,12 @@ def pos_atoms_printed(rule):
 
 def gen(ch):
     feat = dlgen.Feat(max_atoms=4, max_groups=4)
-    P = dlgen.generate(ch, feat)
     mode = ch.weighted([(4, "plan"), (4, "sips"), (2, "auto")])
+    if mode == "plan" and ch.bool(0.4):
+        # recursion patterns with 2 recursive atoms per rule (non-linear closure, same generation, mutual recursion)
+        P = dlgen.gen_recursive(ch, max_nodes=9, max_edges=16, npatterns=(1, 3))
+    else:
+        P = dlgen.generate(ch, feat)
     base = {"args": []}
     variant = {"args": []}
     nplans = 0
